@@ -101,13 +101,19 @@ let () = each_line (fun line ->
              | Ok (ok, n) ->
                let n = int_of_z n in
                let c = if ok then n else -n in
-               if c <= 0 then Printf.sprintf "C=%d N=-1 R=-1 V=- A=-" c
+               if c < 0 || not ok then Printf.sprintf "C=%d N=-1 R=-1 V=- A=-" c
                else (match scan_message dec2f dec2d text (z_of_int c) with
                    | Ok ((a, vs), rest) ->
                      Printf.sprintf "C=%d N=%d R=%d V=%s A=%s" c (List.length vs)
                        (List.length text - List.length rest) (show_vals vs) (hex_of_bytes a)
                    | Null -> "SCAN-NULL" | Unmod -> "SCAN-UNMODELLED" | NoFuel -> "SCAN-NOFUEL")
              | Null -> "COUNT-NULL" | Unmod -> "COUNT-UNMODELLED" | NoFuel -> "COUNT-NOFUEL"))
+      | "cal" :: secs :: _ ->
+        (* the calendar of the model: localtime, and mktime of its result *)
+        let s = z_of_string secs in
+        let (((((y, mo), d), h), mi), se) = date_of_secs s in
+        Printf.sprintf "D=%s-%s-%s-%s-%s-%s S=%s" (z_to_string y) (z_to_string mo) (z_to_string d)
+          (z_to_string h) (z_to_string mi) (z_to_string se) (z_to_string (secs_of_date y mo d h mi se))
       | "sc" :: h :: _ -> count_scan (bytes_of_hex h)
       | _ -> "BADCASE"
     with Failure m -> "DRIVER-ERROR " ^ m
